@@ -75,3 +75,10 @@ Proof.
   - inversion H; subst. destruct (P y), (P x); cbn; lia.
   - specialize (IH _ H). destruct (P a); cbn; lia.
 Qed.
+
+Lemma del_del {A} (l : list (nat * A)) k : del (del l k) k = del l k.
+Proof. induction l as [|[i x] l IH]; cbn; [reflexivity|]. destruct (Nat.eqb i k) eqn:E; [exact IH|]. cbn. rewrite E. now rewrite IH. Qed.
+Lemma del_app {A} (l1 l2 : list (nat * A)) k : del (l1 ++ l2) k = del l1 k ++ del l2 k.
+Proof. induction l1 as [|[i x] l1 IH]; cbn; [reflexivity|]. destruct (Nat.eqb i k); [exact IH | cbn; now rewrite IH]. Qed.
+Lemma del_put {A} (l : list (nat * A)) k x : del (put l k x) k = del l k.
+Proof. unfold put. rewrite del_app, del_del. cbn. rewrite Nat.eqb_refl. apply app_nil_r. Qed.
